@@ -292,7 +292,14 @@ def main(argv):
             continue
         # one report per (harness, location/description); replay each harness once
         rep = None
-        if not args.no_replay and nreplayed < int(os.environ.get("VERIF_MAX_REPLAYS", "2")):
+        only_termination = all(f.get("class") == "termination" for f in r.failures)
+        if only_termination:
+            # an unbounded loop would make the native replay hang: the unwinding-assertion verdict is reported as is
+            rep = {"status": "solver-only", "path": None, "detail": "termination violation (no native replay: it would not return)"}
+        elif r.wall > float(os.environ.get("VERIF_REPLAY_MAX_S", "400")):
+            # regenerating the counterexample through kani-driver costs another full solver run
+            rep = {"status": "solver-only", "path": None, "detail": "harness too slow for a second solver run (%.0f s)" % r.wall}
+        elif not args.no_replay and nreplayed < int(os.environ.get("VERIF_MAX_REPLAYS", "2")):
             # native replay costs ~1-2 min per harness: the first failing harnesses are replayed,
             # the others are reported with the solver's verdict only
             nreplayed += 1
